@@ -349,7 +349,15 @@ class Node:
         return any(_readable(s) for s in self.waiting)
 
     def ike_sas(self):
-        return list(self.controller.ike_sas) if self.controller is not None and self.state == 'running' else []
+        """The IKE_SA objects in the controller's table (anything else in there is reported by table_junk())."""
+        if self.controller is None or self.state != 'running':
+            return []
+        return [x for x in self.controller.ike_sas if hasattr(x, 'state') and hasattr(x, 'my_spi')]
+
+    def table_junk(self):
+        if self.controller is None or self.state != 'running':
+            return []
+        return [x for x in self.controller.ike_sas if not (hasattr(x, 'state') and hasattr(x, 'my_spi'))]
 
 
 # ======================================================================================= network
